@@ -104,6 +104,20 @@ let find_lang id = List.find_opt (fun l -> int_of_n l.l_id = id) main_table
 
 let out_opt = function Some evs -> print_endline ("ok " ^ s_events evs) | None -> print_endline "none"
 
+(* ---- tree dump (same syntax as harness/c04_harness.c) ---- *)
+let rec s_node = function
+  | TElt (t, attrs, ch) ->
+    Printf.sprintf "E %s %d%s %d%s" (s_tag t) (List.length attrs)
+      (String.concat "" (List.map (fun (a, v) -> " " ^ s_attrname a ^ " " ^ hex_of_bytes v) attrs))
+      (List.length ch) (String.concat "" (List.map (fun c -> " " ^ s_node c) ch))
+  | TText b -> "T " ^ hex_of_bytes b
+  | TCData ch -> Printf.sprintf "C %d%s" (List.length ch) (String.concat "" (List.map (fun c -> " " ^ s_node c) ch))
+  | TSub (l, cs, root) -> s_root l cs root
+and s_root l cs root =
+  Printf.sprintf "R %d %d %s" (int_of_n l) (int_of_n cs) (match root with Some n -> "1 " ^ s_node n | None -> "0")
+
+let berrname = function BE_INTERNAL -> "INTERNAL" | BE_PARSE e -> errname e
+
 let () =
   try while true do
     let line = input_line stdin in
@@ -115,6 +129,13 @@ let () =
         | POk evs -> print_endline ("ok " ^ s_events evs)
         | PErr e -> print_endline ("err " ^ errname e)
         | PFuel -> print_endline "fuel")
+     | ["t"; forced; meta; h] ->
+       let bs = bytes_of_hex h in
+       (match tree_from_wbxml main_table (n_of_int (int_of_string forced)) (n_of_int (int_of_string meta))
+                (nat_of_int 64) bs with
+        | BOk t -> print_endline ("ok " ^ s_root t.wt_lang t.wt_charset t.wt_root)
+        | BErr e -> print_endline ("err " ^ berrname e ^ " tree=null")
+        | BFuel -> print_endline "fuel")
      (* specification side *)
      | "ser" :: toks -> (try print_endline (hex_of_bytes (serialize (rd_doc toks))) with Bad m -> print_endline ("bad " ^ m))
      | "den" :: forced :: _meta :: toks ->
